@@ -69,8 +69,9 @@ def _opt(kind, lr):
   raise ValueError(kind)
 
 
-def algorithm(name, hp):
-  """hp: plain dict of JSON scalars.  Batching always carries a fixed seed."""
+def algorithm(name, hp, fresh=False):
+  """hp: plain dict of JSON scalars.  Batching always carries a fixed seed.
+  fresh=True builds a new algorithm object (new closures, new jit caches) instead of the cached one."""
   import fedjax
   from fedjax.algorithms import (agnostic_fed_avg, apfl, fed_avg, fed_prox, hyp_cluster, mime, mime_lite)
   key = (name, tuple(sorted((k, tuple(v) if isinstance(v, list) else v) for k, v in hp.items())))
@@ -103,7 +104,7 @@ def algorithm(name, hp):
     if name == 'apfl':
       return apfl.adaptive_personalized_federated_learning(_grad_fn(), copt, sopt, train, hp.get('coef', 0.5))
     raise ValueError(name)
-  return cached(key, make)
+  return make() if fresh else cached(key, make)
 
 
 def init_state(name, hp, alg):
@@ -112,7 +113,7 @@ def init_state(name, hp, alg):
   return alg.init(init_params(hp.get('p0', 0)))
 
 
-def aggregator(name, hp):
+def aggregator(name, hp, fresh=False):
   import jax
   from fedjax.aggregators import compression
   key = ('agg', name, tuple(sorted(hp.items())))
@@ -130,7 +131,7 @@ def aggregator(name, hp):
     if name == 'terngrad':
       return compression.terngrad_quantizer(rng)
     raise ValueError(name)
-  return cached(key, make)
+  return make() if fresh else cached(key, make)
 
 
 def client_rng(seed, rnd, idx):
@@ -145,11 +146,18 @@ def cid(i):
 # ---- bit-exact snapshots -------------------------------------------------------
 
 def leaf_bytes(l):
-  """(dtype, shape, bytes) of an array leaf, or the string 'deleted'."""
+  """(dtype, shape, bytes) of an array leaf, or the string 'deleted'.  A jax array is
+  first copied ON DEVICE: np.asarray(jax_array) would create a cached zero-copy host view
+  that pins the buffer and makes XLA silently skip a later donation of it, i.e. looking
+  at the state would hide the very defect (a donated input) the check is after."""
   try:
-    if hasattr(l, 'is_deleted') and l.is_deleted():
-      return 'deleted'
-    a = np.asarray(l)
+    if hasattr(l, 'is_deleted'):
+      if l.is_deleted():
+        return 'deleted'
+      import jax.numpy as jnp
+      a = np.asarray(jnp.copy(l))
+    else:
+      a = np.asarray(l)
   except RuntimeError:
     return 'deleted'
   return (a.dtype.str, a.shape, a.tobytes())
